@@ -179,7 +179,7 @@ def r1_freeze(ctx, F, vb):
     post_freeze_declaring_module(ctx, F)
 
 
-def r2_list(ctx, F):
+def r2_list(ctx, F, rule="C04.R2"):
     own_list = r"list::value::ListData::<'v>::\w+$"
     own_arr = r"(array::Array::<'v>|list::value::ListData::<'v>)::\w+$"
     n = 0
@@ -208,9 +208,9 @@ def r2_list(ctx, F):
                     kinds.add(o[0])
             key = "%s->%s" % (short_fn(t.qpath), c.name.split("::")[-1])
             if kinds == {"checked"} or kinds == {"fresh"}:
-                ctx.ok("C04.R2", key, "receiver comes from the checked downcast / a list allocated in this body")
+                ctx.ok(rule, key, "receiver comes from the checked downcast / a list allocated in this body")
             elif kinds == {"unchecked"}:
-                ctx.check(bool(re.search(r"InstrComprListAppend", t.qpath)), "C04.R2", key,
+                ctx.check(bool(re.search(r"InstrComprListAppend", t.qpath)), rule, key,
                           "unchecked receiver only in the comprehension append instruction (list not yet visible)",
                           "list mutator reached through from_value_unchecked_mut outside the comprehension handler",
                           fn=f, line=c.line)
@@ -218,14 +218,14 @@ def r2_list(ctx, F):
                 cm = calls_by_name(f, r"ListData::<'v>::check_can_mutate$")
                 good = bool(cm) and any(f.dominates(m.bb, c.bb) and m.bb != c.bb for m in cm) and bool(
                     outcome_edges(F, f, cm[0], "Break"))
-                ctx.check(good, "C04.R2", key, "dominated by check_can_mutate()? (error propagated)",
+                ctx.check(good, rule, key, "dominated by check_can_mutate()? (error propagated)",
                           "ListData::set_at writes without a dominating check_can_mutate", fn=f, line=c.line)
             else:
-                ctx.bad("C04.R2", key,
+                ctx.bad(rule, key,
                         "a %s mutator (`%s`) is called on a receiver that does not come from "
                         "ListData::from_value_mut (which fails for frozen lists and lists under iteration): %s"
                         % (what, c.name.split("::")[-1], sorted(kinds)), fn=f, line=c.line)
-    ctx.floor("C04.R2", "external list/array mutator call sites", n, 15, inventory=True)
+    ctx.floor(rule, "external list/array mutator call sites", n, 15, inventory=True)
     # from_value_mut: check_can_mutate dominates the Ok return, and its error is propagated
     fvm = F.one(r"list::value::ListData::<'v>::from_value_mut$")
     cm = calls_by_name(fvm, r"ListData::<'v>::check_can_mutate$")
@@ -236,18 +236,18 @@ def r2_list(ctx, F):
     if good:
         ce = outcome_edges(F, fvm, cm[0], "Continue")
         good = bool(ce) and all(st.bb not in fvm.reach(0, cut_edges=ce) for st in oks)
-    ctx.check(good, "C04.R2", "from_value_mut:checks",
+    ctx.check(good, rule, "from_value_mut:checks",
               "from_value_mut returns Ok only on the Continue edge of check_can_mutate after the unfrozen downcast",
               "ListData::from_value_mut can return a mutable list without check_can_mutate succeeding", fn=fvm)
     gens = [c.full for c in dc]
-    ctx.check(any("ListData" in g and "Frozen" not in g.split("downcast_ref")[-1] for g in gens), "C04.R2",
+    ctx.check(any("ListData" in g and "Frozen" not in g.split("downcast_ref")[-1] for g in gens), rule,
               "from_value_mut:unfrozen-downcast", "the success path downcasts to the unfrozen representation",
               "from_value_mut downcasts to something else than ListGen<ListData>", fn=fvm)
     # frozen sibling of set_at returns the error constant and touches nothing
     fs = F.one(r"<values::types::list::value::FrozenListData as values::types::list::value::ListLike<'v>>::set_at$")
     errs = [st for st in fs.stmts if "CannotMutateImmutableValue" in st.kind]
     writes = [c for c in fs.calls if re.search(ARRAY_MUT, c.name)]
-    ctx.check(bool(errs) and not writes, "C04.R2", "frozen-list:set_at-fails",
+    ctx.check(bool(errs) and not writes, rule, "frozen-list:set_at-fails",
               "FrozenListData::set_at only builds CannotMutateImmutableValue",
               "the frozen list's set_at no longer fails / writes content", fn=fs)
 
